@@ -173,6 +173,13 @@ def run(tier, seed):
                 off = nb.allocate(16)
                 nb.update_from_buffer(off, b"\x01" * 16)
                 nb.free(off, 16)
+                # regions somewhat larger than the hole: they must not be carved out of it (it is followed by live objects)
+                for sz in (24, 40, 17, 64):
+                    offk = nb.allocate(sz)
+                    nb.update_from_buffer(offk, b"\x5a" * sz)
+                    if offk < 0 or offk + sz > nb.capacity or not all(eq(value(g), w) for g, w in zip(g2, wants)):
+                        bad("group:allocator-state", offset=offk, size=sz, capacity=nb.capacity, note="an allocation in the unpickled buffer overlaps a live object or leaves the capacity")
+                        break
                 off2 = nb.allocate(1000)
                 # a working allocator: the new regions lie inside the capacity and writing into them leaves every object of the group
                 # intact (that the free list is the same as before pickling is not demanded by the statement)
